@@ -81,15 +81,15 @@ Proof.
     match load_region pd budget fuel t key is_end false with
     | (Err e, t1) => (Err e, c, t1)
     | (Ok lr, t1) =>
-        let '(ok, c1) := insert_region c lr in
+        let '(ok, c1) := insert_new c lr in
         if ok then (Ok lr, c1, t1)
         else match load_region pd budget fuel t1 key is_end false with
              | (Err e, t2) => (Err e, c1, t2)
-             | (Ok lr2, t2) => (Ok lr2, snd (insert_region c1 lr2), t2)
+             | (Ok lr2, t2) => (Ok lr2, snd (insert_new c1 lr2), t2)
              end
     end = (Ok r, c', t') -> x = tt -> holds is_end r key = true).
   { intros _ H _. destruct (load_region pd budget fuel t key is_end false) as [[lr|e] t1] eqn:E1; [|discriminate H].
-    destruct (insert_region c lr) as [ok c1]. destruct ok.
+    destruct (insert_new c lr) as [ok c1]. destruct ok.
     - injection H as <- _ _. eapply load_region_holds; [| |exact E1]; [exact Hk|discriminate].
     - destruct (load_region pd budget fuel t1 key is_end false) as [[lr2|e] t2] eqn:E2; [|discriminate H].
       injection H as <- _ _. eapply load_region_holds; [| |exact E2]; [exact Hk|discriminate]. }
@@ -133,7 +133,7 @@ Proof.
     intros H. apply get_by_verid_verid in H. destruct H as [H _]. unfold r_verid in H. congruence. }
   assert (Hmiss : match load_by_id pd budget t id with
                   | (Err e, t1) => (Err e, c, t1)
-                  | (Ok lr, t1) => (Ok lr, snd (insert_region c lr), t1)
+                  | (Ok lr, t1) => (Ok lr, snd (insert_new c lr), t1)
                   end = (Ok r, c', t') -> r_id r = id).
   { destruct (load_by_id pd budget t id) as [[lr|e] t1] eqn:E1; [|discriminate].
     intros H; injection H as <- _ _. eapply load_by_id_id; exact E1. }
